@@ -656,8 +656,10 @@ def write_evidence(prop_id, prop, tier, seed, status, cuts, wall):
         "wall_s": round(wall, 1),
         "violations": len(status["violations"]),
     }
-    os.makedirs(os.path.join(VERIF, "evidence"), exist_ok=True)
-    json.dump(ev, open(os.path.join(VERIF, "evidence", prop_id + ".json"), "w"), indent=1)
+    # (seeded-change experiments set VERIF_EVIDENCE_DIR so that they do not overwrite the evidence of the unchanged tree)
+    evdir = os.environ.get("VERIF_EVIDENCE_DIR") or os.path.join(VERIF, "evidence")
+    os.makedirs(evdir, exist_ok=True)
+    json.dump(ev, open(os.path.join(evdir, prop_id + ".json"), "w"), indent=1)
 
 
 def replay_file(path, registry):
